@@ -5,8 +5,9 @@ open Lean IQE.Engine IQE.Engine.Dechunk
 namespace Driver.C41
 
 /-- Switches of the findings that are still open in /repo (`known_findings.json`): the model the
-    correspondence K is run against.  After the `fix:` commit this is `Dev.fixed`. -/
-def current : Dev := Dev.legacy
+    correspondence K is run against.  C41-F1..F3 were repaired by /repo commit 9d62852 (`fix: dechunk …`),
+    so no switch is on any more; a case that now shows one of the old behaviours is a VIOLATION. -/
+def current : Dev := Dev.fixed
 
 /-- finding id ↦ the single switch that must explain a failing case completely -/
 def findings : List (String × Dev) :=
